@@ -6,6 +6,7 @@ import canon_common as cc
 import lib
 import norm_common as nc
 import normwhole as nw
+import platform_pa as ppa
 import urlgen
 
 ID = "C05"
@@ -128,6 +129,14 @@ CORPUS = [
 ]
 
 
+PA_OPTSETS = [
+    {"platform_aware": True},
+    {"platform_aware": True, "infer_redirection": False},
+    {"platform_aware": True, "strip_protocol": False, "strip_irrelevant_subdomains": False, "quoted": True},
+    {"platform_aware": True, "strip_trailing_slash": False, "sort_query": False, "strip_fragment": False, "fix_common_mistakes": False},
+]
+
+
 def _case(url=None, parts=None, opts=None):
     c = {"kind": "url", "opts": opts or {}}
     if parts is not None:
@@ -196,6 +205,10 @@ def cases(rng, tier):
             yield _case(url=u, opts=o)
     for p in urlgen.structure_sweep():
         yield _case(url=urlgen.url_of(p), opts=rng.choice(pw))
+    # platform_aware=True on facebook / youtube url shapes of the C19 generators (at the end: the
+    # stream above is unchanged); the concrete branch of Model/Platform.lean is compared on each
+    for i, u in enumerate(ppa.c19_urls(rng, tier)):
+        yield _case(url=u, opts=PA_OPTSETS[i % len(PA_OPTSETS)])
 
 
 def _url(case):
@@ -206,13 +219,14 @@ def ops(case):
     if case["kind"] == "fn":
         return [case["op"]]
     # component-level lines (real parser's Parsed shipped), then the whole function on the string
-    return nc.ops(_url(case), case["opts"]) + nw.norm_ops(_url(case), case["opts"])
+    # ... and, under platform_aware=True, with the CONCRETE branch (Model/Platform.lean): nothing shipped
+    return nc.ops(_url(case), case["opts"]) + nw.norm_ops(_url(case), case["opts"]) + ppa.norm_pa_ops(_url(case), case["opts"])
 
 
 def impl(case):
     if case["kind"] == "fn":
         return [lib.guarded(nc.fn_impl, case["op"])]
-    return nc.impl(_url(case), case["opts"]) + nw.norm_impl(_url(case), case["opts"])
+    return nc.impl(_url(case), case["opts"]) + nw.norm_impl(_url(case), case["opts"]) + ppa.norm_pa_impl(_url(case), case["opts"])
 
 
 # ---------------------------------------------------------------------------------------
@@ -540,6 +554,8 @@ def classify(case):
     url = _url(case)
     o = nc.full_opts(case["opts"])
     labs = ["url", nw.label(url, o)]
+    if o["platform_aware"]:
+        labs.append(ppa.label_pa(url, o))
     for k in nc.ALL_OPTS:
         if o[k] != nc.DEFAULTS[k]:
             labs.append("%s=%s" % (k, o[k]))
